@@ -410,9 +410,24 @@ def cache(ctx):
     R = _prop(ev, box, 'reciprocal_vects')
     ctx.ob('CACHE', BOX + '::Box.reciprocal_vects', 'reciprocal vectors are dual to the cell vectors (R·Vᵀ = I)', equal(np.dot(R, V.T), arr(sp.eye(3).tolist())), node=ctx.fn(BOX, 'Box.reciprocal_vects'))
     g = ctx.fn(BOX, 'Box.reciprocal_vects')
-    tests = [s for s in g.body if isinstance(s, ast.If)]
-    ok = len(tests) == 1 and norm(tests[0].test) == 'self.__reciprocal_vects is None' and not tests[0].orelse
-    ctx.ob('CACHE', BOX + '::Box.reciprocal_vects', 'the cache is recomputed exactly when it was reset', ok, node=g)
+    # by evaluation: a reset cache (None) is recomputed from the vectors and stored; a filled cache is handed out as it is
+    cls_node = ctx.fn(BOX, 'Box')
+    Vc = np.array([[2, 0, 0], [1, 3, 0], [sp.Rational(1, 2), -1, 4]], dtype=object)
+    stale = np.array(sp.eye(3).tolist(), dtype=object) * 7
+    res = {}
+    for tag, cache0 in (('reset', None), ('filled', stale)):
+        obj = SymObj(cls_node, {'_Box__vects': Vc.copy(), '_Box__origin': arr([0, 0, 0]), '_Box__reciprocal_vects': cache0}, 'self')
+        ev_ = SymEval(module_aliases(ctx.mod(BOX)))
+        try:
+            live = [q for q in ev_.run_fn(g, [obj], {}) if q.done == 'return']
+        except (Opaque, WouldRaise) as e:
+            raise AnalysisError('Box.reciprocal_vects (%s cache): %s' % (tag, e))
+        res[tag] = (live[0].ret if len(live) == 1 else None, obj.attrs.get('_Box__reciprocal_vects'))
+    want = np.array(sp.Matrix(Vc.tolist()).inv().T.tolist(), dtype=object)
+    ok = res['reset'][0] is not None and equal(np.asarray(res['reset'][0], dtype=object), want, deep=False) and res['reset'][1] is not None and equal(np.asarray(res['reset'][1], dtype=object), want, deep=False) \
+        and res['filled'][0] is stale and res['filled'][1] is stale
+    ctx.ob('CACHE', BOX + '::Box.reciprocal_vects', 'the cache is recomputed (from the stored vectors, and kept) exactly when it was reset; a filled cache is handed out as it is', bool(ok),
+           'reset: returned %s; filled: %s' % (None if res['reset'][0] is None else np.asarray(res['reset'][0]).tolist(), 'the cached array' if res['filled'][0] is stale else 'another value'), node=g)
     # getters hand out copies
     for k in ('vects', 'origin'):
         g = ctx.fn(BOX, 'Box.' + k)
